@@ -4,7 +4,9 @@ import (
 	"bytes"
 	"encoding/json"
 	"fmt"
+	"sort"
 	"strings"
+	"sync"
 
 	"github.com/dave/jennifer/jen"
 
@@ -22,20 +24,95 @@ func init() {
 	register(&Check{ID: "C20", Level: "model_checking", Run: runC20, Replay: replayC20})
 }
 
-const (
-	c20Pool  = 4
-	c20Kinds = 7 // Id, Dot, Add x3, Call, Clone, RenderWithFile(shared), Tag
+var c20KindNames = []string{"Id", "Dot", "Add3", "Call", "Clone", "RenderWithSharedFile", "Tag", "Line", "Case", "Block"}
+
+// Two alphabets (operation kinds on any pool member) with their pool sizes: the general one, and
+// one of clause-like tokens whose rendering depends on their neighbours (Line, Case, Block).
+var c20Alphabets = [][]int{{0, 1, 2, 3, 4, 5, 6}, {0, 1, 7, 8, 9, 4}}
+var c20Pools = []int{4, 3}
+
+// the alphabet in force (searches run one after another)
+var (
+	c20Alpha = c20Alphabets[0]
+	c20Pool  = c20Pools[0]
 )
 
-var c20KindNames = []string{"Id", "Dot", "Add3", "Call", "Clone", "RenderWithSharedFile", "Tag"}
+func c20Use(alphabet int) {
+	c20Alpha, c20Pool = c20Alphabets[alphabet], c20Pools[alphabet]
+}
+
+func c20Kind(op int) int { return c20Alpha[op%len(c20Alpha)] }
 
 // c20NullRoot selects the original the pool starts with: Id(r), or an empty one (Null()).
 var c20NullRoot bool
 
+// c20Tok is one token-appending operation applied to a statement.
+type c20Tok struct {
+	kind int
+	name string
+}
+
+func c20Apply(s *jen.Statement, t c20Tok) {
+	switch t.kind {
+	case 0:
+		s.Id(t.name)
+	case 1:
+		s.Dot(t.name)
+	case 2:
+		s.Add(jen.Id(t.name+"a"), jen.Id(t.name+"b"), jen.Id(t.name+"c"))
+	case 3:
+		s.Call(jen.Id(t.name))
+	case 6:
+		s.Tag(map[string]string{t.name: "v"})
+	case 7:
+		s.Line()
+	case 8:
+		s.Case(jen.Id(t.name))
+	case 9:
+		s.Block(jen.Id(t.name))
+	}
+}
+
+var c20Twins sync.Map // "root|kind:name,..." -> raw rendering of a statement built without any Clone
+
+// c20Twin renders a statement built from scratch - the root original (root) or an empty statement
+// - by the given operations, with no Clone involved: the reference for what those tokens look like.
+func c20Twin(root bool, toks []c20Tok) string {
+	if !root && len(toks) == 0 {
+		return ""
+	}
+	var sb strings.Builder
+	fmt.Fprintf(&sb, "%v/%v|", root, c20NullRoot)
+	for _, t := range toks {
+		fmt.Fprintf(&sb, "%d:%s,", t.kind, t.name)
+	}
+	if v, ok := c20Twins.Load(sb.String()); ok {
+		return v.(string)
+	}
+	st := &jen.Statement{}
+	if root {
+		st = c20Root()
+	}
+	for _, t := range toks {
+		c20Apply(st, t)
+	}
+	out := c20Render(st)
+	c20Twins.Store(sb.String(), out)
+	return out
+}
+
+func c20Root() *jen.Statement {
+	if c20NullRoot {
+		return jen.Null()
+	}
+	return jen.Id("r")
+}
+
 type c20Model struct {
-	parent int
-	own    []string
-	snap   map[string]bool // acceptable renderings of the parent at clone time
+	parent   int
+	own      []c20Tok
+	snap     map[string]bool // acceptable renderings of the parent at clone time
+	snapFlat []c20Tok        // the parent's tokens (flattened over its ancestry) at clone time
 }
 
 type c20World struct {
@@ -46,7 +123,7 @@ type c20World struct {
 }
 
 func c20OpName(op int) string {
-	return fmt.Sprintf("%s(s%d)", c20KindNames[op%c20Kinds], op/c20Kinds)
+	return fmt.Sprintf("%s(s%d)", c20KindNames[c20Kind(op)], op/len(c20Alpha))
 }
 
 func c20Hist(hist []int) []string {
@@ -57,13 +134,29 @@ func c20Hist(hist []int) []string {
 	return out
 }
 
+// flat: the tokens of statement i flattened over its ancestry as it is now.
+func (w *c20World) flat(i int) []c20Tok {
+	m := w.model[i]
+	if m.parent < 0 {
+		return m.own
+	}
+	return append(append([]c20Tok(nil), w.flat(m.parent)...), m.own...)
+}
+
+// accept: the acceptable raw renderings of statement i. The reference for how tokens look is the
+// implementation itself on statements built without Clone (differential): the original must render
+// like a twin built by the same appends; a clone like its parent (as of clone time or as of now)
+// followed by its own tokens as they render alone, or like a twin on which the parent's and its
+// own appends were made directly (the two differ only where a token's look depends on its
+// predecessor, e.g. a Block after a Case).
 func (w *c20World) accept(i int) map[string]bool {
 	m := w.model[i]
-	own := strings.Join(m.own, " ")
-	if m.parent < 0 {
-		return map[string]bool{own: true}
-	}
 	out := map[string]bool{}
+	if m.parent < 0 {
+		out[c20Twin(true, m.own)] = true
+		return out
+	}
+	own := c20Twin(false, m.own)
 	add := func(p string) {
 		switch {
 		case own == "":
@@ -80,56 +173,36 @@ func (w *c20World) accept(i int) map[string]bool {
 	for p := range m.snap {
 		add(p)
 	}
+	out[c20Twin(true, w.flat(i))] = true
+	out[c20Twin(true, append(append([]c20Tok(nil), m.snapFlat...), m.own...))] = true
 	return out
 }
 
 // c20Build replays a history; ok=false if the last operation is not enabled.
 func c20Build(hist []int) (w *c20World, ok bool) {
 	w = &c20World{lastOp: -1, shared: jen.NewFile("")}
-	if c20NullRoot {
-		w.stmts = append(w.stmts, jen.Null())
-		w.model = append(w.model, &c20Model{parent: -1})
-	} else {
-		w.stmts = append(w.stmts, jen.Id("r"))
-		w.model = append(w.model, &c20Model{parent: -1, own: []string{"r"}})
-	}
+	w.stmts = append(w.stmts, c20Root())
+	w.model = append(w.model, &c20Model{parent: -1})
 	for _, op := range hist {
-		si, kind := op/c20Kinds, op%c20Kinds
+		si, kind := op/len(c20Alpha), c20Kind(op)
 		if si >= len(w.stmts) {
 			return w, false
 		}
 		s, m := w.stmts[si], w.model[si]
-		name := func(k int) string { return fmt.Sprintf("t%d_%d", si, len(m.own)+k) }
 		switch kind {
-		case 0:
-			n := name(0)
-			s.Id(n)
-			m.own = append(m.own, n)
-		case 1:
-			n := name(1)
-			s.Dot(n)
-			m.own = append(m.own, ".", n)
-		case 2:
-			a, b, c := name(0), name(1), name(2)
-			s.Add(jen.Id(a), jen.Id(b), jen.Id(c))
-			m.own = append(m.own, a, b, c)
-		case 3:
-			n := name(0)
-			s.Call(jen.Id(n))
-			m.own = append(m.own, "("+n+")")
 		case 4:
 			if len(w.stmts) >= c20Pool {
 				return w, false
 			}
 			c := s.Clone()
 			w.stmts = append(w.stmts, c)
-			w.model = append(w.model, &c20Model{parent: si, snap: w.accept(si)})
+			w.model = append(w.model, &c20Model{parent: si, snap: w.accept(si), snapFlat: w.flat(si)})
 		case 5:
 			c20WithFile(s, w.shared)
-		case 6:
-			n := name(0)
-			s.Tag(map[string]string{n: "v"})
-			m.own = append(m.own, "`"+n+":\"v\"`")
+		default:
+			t := c20Tok{kind, fmt.Sprintf("t%d_%d", si, len(m.own))}
+			c20Apply(s, t)
+			m.own = append(m.own, t)
 		}
 		w.lastOp = op
 	}
@@ -160,6 +233,15 @@ func (w *c20World) key() string {
 	sb.WriteString(imp.Key(w.shared))
 	for i, s := range w.stmts {
 		fmt.Fprintf(&sb, "%d:%d:%d:%s|", w.model[i].parent, len(*s), cap(*s), c20Render(s))
+		// the oracle's own state belongs to the key: two histories that leave the same statements but
+		// different sets of acceptable renderings (what the parent looked like at clone time) have
+		// different futures as far as the invariant goes
+		var snaps []string
+		for p := range w.model[i].snap {
+			snaps = append(snaps, p)
+		}
+		sort.Strings(snaps)
+		fmt.Fprintf(&sb, "%q%d|", snaps, len(w.model[i].snapFlat))
 	}
 	return sb.String()
 }
@@ -187,7 +269,7 @@ func c20Invariant(w *c20World) string {
 			return fmt.Sprintf("s%d rendered with the File shared by the history gives %q, with a fresh File %q", i, a, b)
 		}
 	}
-	if w.lastOp >= 0 && w.lastOp%c20Kinds == 4 {
+	if w.lastOp >= 0 && c20Kind(w.lastOp) == 4 {
 		c := len(w.stmts) - 1
 		if a, b := c20Render(w.stmts[c]), c20Render(w.stmts[w.model[c].parent]); a != b {
 			return fmt.Sprintf("fresh clone s%d renders %q, its original s%d renders %q", c, a, w.model[c].parent, b)
@@ -197,66 +279,72 @@ func c20Invariant(w *c20World) string {
 }
 
 func runC20(r *ev.Recorder) {
-	depth := 7
+	depth := 6
 	if r.Tier == ev.Thorough {
-		depth = 10
+		depth = 8
 		r.SetDeadline(40 * 60 * 1e9)
 	} else {
 		r.SetDeadline(5 * 60 * 1e9)
 	}
 	r.Rule = fmt.Sprintf("explicit-state BFS over the real Statement API: pool of <= %d statements (one original Id(r) plus clones, clones of clones included); operations on any pool member: "+
-		"Id (1 token), Dot (2), Add(x,y,z) (3), Call (1 group), Tag (1), Clone, RenderWithFile with one File shared by the whole history; two roots (Id(r) and an empty Null() original, the latter 2 levels less deep); all histories of length <= %d, de-duplicated on (parent, len, cap, raw rendering) of every statement. "+
-		"Invariant in every state (list model): an original renders exactly its own tokens; a clone renders its parent (as of clone time or as of now - the property leaves that open) followed by exactly its own tokens in order; "+
+		"Id (1 token), Dot (2), Add(x,y,z) (3), Call (1 group), Tag (1), Clone, RenderWithFile with one File shared by the whole history; a second alphabet of tokens whose rendering depends on their neighbours - Id, Dot, Line, Case, Block (a clause body directly after a Case in the same statement; as the first token of a clone of a statement ending in Case both renderings are accepted), Clone - over a pool of 3; two roots (Id(r) and an empty Null() original, the latter one level less deep); all histories of length <= %d, de-duplicated on (parent, len, cap, raw rendering, the model's set of acceptable parent renderings at clone time) of every statement - the oracle's own state is part of the key, since histories that leave equal statements but different acceptable sets have different futures. "+
+		"Invariant in every state (list model whose token texts come from twins built on the real API without any Clone): an original renders like a twin built by the same appends; a clone renders its parent (as of clone time or as of now - the property leaves that open) followed by its own tokens as they render alone, or like a twin on which the parent's and its own appends were made directly; "+
 		"a fresh clone renders like its original; every statement rendered with the shared File equals its rendering with a fresh File. Plus chains of 2..1000 nested clones, and 1,820 nesting cases: originals of 1..13 items, two clones with tails of 0..3 items, one nested as a call argument inside the other at every position, rendered twice. Slice growth 1->2->4->8 makes cap > len reachable within 3 appends", c20Pool, depth)
 	r.Assume = []string{"both snapshot and live-view semantics of Clone are accepted (the property does not choose)", "histories longer than the depth bound are outside the bound"}
 
 	var states, transitions int64
 	var perDepth [][]int64
-	for _, nullRoot := range []bool{false, true} {
-		c20NullRoot = nullRoot
-		d := depth
-		if nullRoot {
-			d = depth - 2 // the second root is there for the interaction of emptiness with renders
-		}
-		res := statespace.Search(statespace.System{
-			NumOps:   c20Pool * c20Kinds,
-			MaxDepth: d,
-			Stop:     r.Expired,
-			Step: func(hist []int) (string, bool) {
-				w, ok := c20Build(hist)
-				if !ok {
-					return "", false
-				}
-				return w.key(), true
-			},
-			Invariant: func(hist []int) {
-				w, _ := c20Build(hist)
-				r.Eval(1)
-				spare := false
-				for _, s := range w.stmts {
-					if cap(*s) > len(*s) {
-						spare = true
+	for ai := range c20Alphabets {
+		for _, nullRoot := range []bool{false, true} {
+			ai := ai
+			c20Use(ai)
+			c20NullRoot = nullRoot
+			d := depth
+			if nullRoot {
+				d = depth - 1 // the second root is there for the interaction of emptiness with renders
+			}
+			res := statespace.Search(statespace.System{
+				NumOps:    c20Pool * len(c20Alpha),
+				MaxDepth:  d,
+				MaxStates: 40_000_000,
+				Stop:      r.Expired,
+				Step: func(hist []int) (string, bool) {
+					w, ok := c20Build(hist)
+					if !ok {
+						return "", false
 					}
-				}
-				if len(w.stmts) > 1 && spare {
-					r.Distinct(fmt.Sprint(nullRoot) + w.key())
-				}
-				if len(hist) == 5 && r.WantSample() {
-					r.Sample(map[string]any{"null_root": nullRoot, "history": c20Hist(hist), "statements": w.render()})
-				}
-				if msg := c20Invariant(w); msg != "" {
-					r.Violate(ev.Violation{Signature: "c20:" + c20KindNames[hist[len(hist)-1]%c20Kinds], What: fmt.Sprintf("null root %v, after %v: %s", nullRoot, c20Hist(hist), msg),
-						Case: ev.JSON(c20Case{NullRoot: nullRoot, Hist: hist}), Detail: msg})
-				}
-			},
-		})
-		states += res.States
-		transitions += res.Transitions
-		perDepth = append(perDepth, res.PerDepth)
-		if !res.Complete {
-			r.NotExhaustive("search stopped before the depth bound")
+					return w.key(), true
+				},
+				Invariant: func(hist []int) {
+					w, _ := c20Build(hist)
+					r.Eval(1)
+					spare := false
+					for _, s := range w.stmts {
+						if cap(*s) > len(*s) {
+							spare = true
+						}
+					}
+					if len(w.stmts) > 1 && spare {
+						r.Distinct(fmt.Sprint(nullRoot, ai) + w.key())
+					}
+					if len(hist) == 5 && r.WantSample() {
+						r.Sample(map[string]any{"null_root": nullRoot, "history": c20Hist(hist), "statements": w.render()})
+					}
+					if msg := c20Invariant(w); msg != "" {
+						r.Violate(ev.Violation{Signature: "c20:" + c20KindNames[c20Kind(hist[len(hist)-1])], What: fmt.Sprintf("null root %v, after %v: %s", nullRoot, c20Hist(hist), msg),
+							Case: ev.JSON(c20Case{NullRoot: nullRoot, Alphabet: ai, Hist: hist}), Detail: msg})
+					}
+				},
+			})
+			states += res.States
+			transitions += res.Transitions
+			perDepth = append(perDepth, res.PerDepth)
+			if !res.Complete {
+				r.NotExhaustive("search stopped before the depth bound")
+			}
 		}
 	}
+	c20Use(0)
 	c20NullRoot = false
 	r.Note("states", states)
 	r.Note("transitions", transitions)
@@ -381,6 +469,7 @@ func c20Nested(l, ta, tb, pos int) string {
 
 type c20Case struct {
 	NullRoot bool  `json:"null_root"`
+	Alphabet int   `json:"alphabet,omitempty"`
 	Hist     []int `json:"history,omitempty"`
 	Nested   []int `json:"nested,omitempty"`
 }
@@ -407,7 +496,11 @@ func replayC20(raw json.RawMessage) (bool, string) {
 		return msg == "", fmt.Sprintf("nested clones %v: %s", c.Nested, msg)
 	}
 	c20NullRoot = c.NullRoot
-	defer func() { c20NullRoot = false }()
+	if c.Alphabet < 0 || c.Alphabet >= len(c20Alphabets) {
+		return true, "bad case"
+	}
+	c20Use(c.Alphabet)
+	defer func() { c20NullRoot = false; c20Use(0) }()
 	w, ok := c20Build(c.Hist)
 	if !ok {
 		return true, "history not enabled on this tree"
